@@ -18,6 +18,8 @@ EXPLANATION = (
     "impl maps insert/query/union to HashSet::insert(clone)/contains/extend(cloned). Survival across failed operations is C12."
     " Also applied here (their violation is a false negative): C12's restore rules for every fallible insert/union, C14's delete accounting (exactly one copy removed), R01-bucket-range (hash() reduced modulo the power-of-two n_buckets), and for the quotient filter C13's structural rules (ring arithmetic, swap chain incl. its initial triple, placement flags, scan loop facts). C19's clear rules are run for the three filters: metadata surviving clear() (a continuation bit, a stored fingerprint) misplaces or hides elements of the next fill."
 )
+from .common import NEW_WRITERS_NOTE as _NWN
+EXPLANATION = EXPLANATION + _NWN % "01"
 NOT_DECIDED = ("that scan/insert_internal of the quotient filter keep runs sorted and clusters intact under shifting and wrap-around "
                "(an inductive heap-shape invariant), and anything depending on actual hash values")
 ASSUMPTIONS = ["FixedBitSet::put(i) sets bit i and bs[i] reads it", "x ^ h ^ h == x"]
@@ -29,6 +31,8 @@ HS = "std::collections::HashSet"
 
 
 def run(ctx):
+    from .common import check_new_writers
+    check_new_writers(ctx, "R01-new-writers", ['filters::bloomfilter::BloomFilter', 'filters::cuckoofilter::CuckooFilter', 'filters::quotientfilter::QuotientFilter'])
     prog = ctx.prog
     selfp = ("param", 1, "self")
 
